@@ -52,12 +52,13 @@ POOL.update(
 # ... and sides of equal LENGTH and equal members that differ only in how often each member occurs
 POOL.update(
     {
+        "A9": (["H", "H", "e-"], ["H2", "e-"], (10.0, -1.0), "GAS_TWOBODY"),  # A3 / A6 without an upper bound
         "N2": (["H", "e-", "e-"], ["H2", "e-"], (-1.0, -1.0), "GAS_TWOBODY"),  # A0 with the reactant multiplicities swapped
         "N3": (["H", "H", "e-"], ["H2", "H2", "e-"], (-1.0, -1.0), "GAS_TWOBODY"),
         "N4": (["H", "H", "e-"], ["H2", "e-", "e-"], (-1.0, -1.0), "GAS_TWOBODY"),  # N3 with the product multiplicities swapped
     }
 )
-IDS3 = ["F0", "F1", "F2", "F3", "B0", "B1", "A0", "N2", "N3", "N4"]
+IDS3 = ["F0", "F1", "F2", "F3", "B0", "B1", "A0", "N2", "N3", "N4", "A9", "A3", "A6"]
 # fourth pool: the same reaction held as instances of different format classes (what merging two databases gives);
 # the reaction is the same whatever file format it was read from
 POOL.update(
@@ -80,7 +81,7 @@ POOL.update(
 FORMAT_OF = {"YK": "kida", "YU": "umist", "YC": "uclchem", "ZK": "kida", "ZU": "umist", "WL": "leeds"}
 IDS4 = ["Y0", "YK", "YU", "YC", "ZK", "ZU", "W0", "WL"]
 IDS2 = ["E0", "E1", "E2", "O0", "O1", "S0", "S1", "A0", "A3", "A7", "A8"]
-IDS = [k for k in POOL if k not in ("E0", "E1", "E2", "O0", "O1", "S0", "S1", "A7", "A8", "F0", "F1", "F2", "F3", "N2", "N3", "N4", "Y0", "YK", "YU", "YC", "ZK", "ZU", "W0", "WL")]
+IDS = [k for k in POOL if k not in ("E0", "E1", "E2", "O0", "O1", "S0", "S1", "A7", "A8", "F0", "F1", "F2", "F3", "A9", "N2", "N3", "N4", "Y0", "YK", "YU", "YC", "ZK", "ZU", "W0", "WL")]
 MODES = [None, "brief", "minimal", "short"]
 
 
